@@ -226,6 +226,11 @@ pub(super) trait DialectHandler: Any + Debug {
         false
     }
 
+    /// Whether OFFSET is only accepted as a part of a LIMIT clause
+    fn offset_requires_limit(&self) -> bool {
+        false
+    }
+
     fn translate_sql_array(
         &self,
         elements: Vec<sqlparser::ast::Expr>,
@@ -407,6 +412,10 @@ impl DialectHandler for GlareDbDialect {
 }
 
 impl DialectHandler for SQLiteDialect {
+    fn offset_requires_limit(&self) -> bool {
+        true
+    }
+
     fn set_ops_distinct(&self) -> bool {
         false
     }
@@ -485,6 +494,10 @@ impl DialectHandler for MsSqlDialect {
 }
 
 impl DialectHandler for MySqlDialect {
+    fn offset_requires_limit(&self) -> bool {
+        true
+    }
+
     fn ident_quote(&self) -> char {
         '`'
     }
@@ -578,6 +591,10 @@ impl DialectHandler for ClickHouseDialect {
 }
 
 impl DialectHandler for BigQueryDialect {
+    fn offset_requires_limit(&self) -> bool {
+        true
+    }
+
     fn ident_quote(&self) -> char {
         '`'
     }
